@@ -1,2 +1,68 @@
+"""Engine part of C03: the as-coded ParserBinary model (MC) and primitive-level traces of the real engine."""
+from .. import tlc, corpus, judge, engine_trace
+from ..mutate import mutants
+from ..api import call
+
+_ALLSEEDS = []
+
+
+def drive(arg):
+    qual, seed, per_seed, limit = arg
+    import random
+    cls = corpus.resolve(qual)
+    rng = random.Random('eng:%s:%s' % (seed, qual))
+    lib = corpus.by_class()
+    engine_trace.install()
+    del engine_trace.EVENTS[:]
+    engine_trace.LIMIT[0] = limit
+    try:
+        for sd in lib.get(cls, [])[:4]:
+            if len(sd) > 1500:
+                continue
+            for data in [sd] + mutants(sd, rng, per_seed, others=[rng.choice(_ALLSEEDS)])[:per_seed * 6]:
+                call(cls.parse_immutable, data)
+                if len(engine_trace.EVENTS) >= limit:
+                    break
+    finally:
+        engine_trace.uninstall()
+    evs = list(engine_trace.EVENTS)
+    for e in evs:
+        e['cls'] = qual.replace('cryptoparser.', '')
+    del engine_trace.EVENTS[:]
+    return evs
+
+
 def run_engine(rep, thorough):
-    pass
+    from ..par import pmap
+    res = tlc.require_ok(tlc.run('MC_ParserBinary', 'MC_ParserBinary', workers=8, timeout=600), 'MC_ParserBinary')
+    rep.add_tlc(res, 'MC_ParserBinary (as-coded primitives: cursor in buffer, monotone, sound missing-byte count; all buffers <= 5 bytes over 4 letters, programs of <= 3 primitives)')
+    r = tlc.run('MC_ParserBinary', 'MC_ParserBinary_prefix', workers=4, timeout=300)
+    if 'CursorInBuffer' not in r.invariant_violated:
+        rep.machinery('MC_ParserBinary_prefix: the pre-fix primitives were NOT rejected')
+    rep.extra['engine_spec_mutant_rejected_by'] = r.invariant_violated
+    lib = corpus.by_class()
+    _ALLSEEDS[:] = [d for ds in lib.values() for d in ds]
+    classes = [c for c in corpus.concrete_parsables() if lib.get(c)]
+    limit = 4000 if thorough else 700
+    args = [(c.__module__ + '.' + c.__qualname__, rep.seed, 30 if thorough else 8, limit) for c in classes]
+    events = []
+    for evs in pmap(drive, args):
+        events += evs
+    names = {}
+    for e in events:
+        names[e['name']] = names.get(e['name'], 0) + 1
+    rep.extra['engine_primitive_events'] = names
+    rep.evaluations += len(events)
+    rep.distinct.update('prim|%s|%d' % (e['cls'], i) for i, e in enumerate(events[:5000]))
+    if events:
+        rep.sample({k: events[0][k] for k in ('cls', 'name', 'pos0', 'pos1', 'len', 'w', 'size', 'out', 'need')})
+    slim = [{k: e[k] for k in ('name', 'pos0', 'pos1', 'len', 'w', 'count', 'size', 'big', 'hdr', 'nulat', 'out', 'need')} for e in events]
+    traces = [slim[i:i + 8000] for i in range(0, len(slim), 8000)]
+    for tup, ti, ei, _ in judge.run(rep, 'Trace_ParserBinary', list(enumerate(traces)), 'engine', max_lines=30000):
+        e = events[ti * 8000 + ei]
+        clause = tup[1]
+        if tup[0] == 'DEV':
+            rep.deviation('engine|%s|%s' % (clause, e['name']), 'the missing-byte count of a primitive differs from the as-coded model')
+            continue
+        rep.violation('engine:%s|%s|%s' % (e['name'], clause, e['cls']), 'primitive %s inside %s: %s (pos %s -> %s of %s, out %s need %s)' % (
+            e['name'], e['cls'], clause, e['pos0'], e['pos1'], e['len'], e['out'], e['need']), e)
